@@ -25,8 +25,21 @@ BoundaryFrames == { Mk(1, <<0, 0, 0>>, 2, mk, Ramp(n)) : mk \in { <<0, <<0, 0, 0
 NonMin16(f) == <<Byte0(f), f.mask * 128 + 126>> \o BE2(f.len) \o (IF f.mask = 1 THEN f.key ELSE <<>>) \o f.payload
 NonMin64(f) == <<Byte0(f), f.mask * 128 + 127>> \o BE8(f.len) \o (IF f.mask = 1 THEN f.key ELSE <<>>) \o f.payload
 Prefixes(s) == { SubSeq(s, 1, k) : k \in 0..Len(s) }
-HugeWires == { <<130, 127, 128, 0, 0, 0, 0, 0, 0, 0, 9, 9>>, <<130, 255, 0, 0, 0, 0, 128, 0, 0, 0, 1, 2, 3, 4, 9>>,
-               <<130, 127, 0, 0, 0, 1, 0, 0, 0, 0, 7>>, <<131, 127, 255, 255, 255, 255, 255, 255, 255, 255>> }
+\* 64-bit length fields at the numeric boundaries (lessons L1): 2^31-1, 2^31, 2^32-1, 2^32, 2^53, 2^63-1, 2^63,
+\* 2^64-4 .. 2^64-1, and 2^24 (representable, but far more than follows)
+BigLens8 == { <<0, 0, 0, 0, 127, 255, 255, 255>>, <<0, 0, 0, 0, 128, 0, 0, 0>>, <<0, 0, 0, 0, 255, 255, 255, 255>>,
+              <<0, 0, 0, 1, 0, 0, 0, 0>>, <<0, 32, 0, 0, 0, 0, 0, 0>>, <<127, 255, 255, 255, 255, 255, 255, 255>>,
+              <<128, 0, 0, 0, 0, 0, 0, 0>>, <<255, 255, 255, 255, 255, 255, 255, 252>>, <<255, 255, 255, 255, 255, 255, 255, 253>>,
+              <<255, 255, 255, 255, 255, 255, 255, 254>>, <<255, 255, 255, 255, 255, 255, 255, 255>>, <<0, 0, 0, 0, 1, 0, 0, 0>> }
+HugeHeaders == { <<130, mb * 128 + 127>> \o e \o (IF mb = 1 THEN <<165, 90, 60, 195>> ELSE <<>>) : mb \in {0, 1}, e \in BigLens8 }
+HugeTails == { <<>>, <<9>>, <<1, 2, 3, 4>>, <<1, 2, 3, 4, 5, 6, 7, 8, 9>> }
+HugeWires == { h \o t : h \in HugeHeaders, t \in HugeTails }
+             \cup { SubSeq(h, 1, k) : h \in HugeHeaders, k \in {3, 9} } \cup { SubSeq(h, 1, Len(h) - 1) : h \in HugeHeaders }
+             \cup { <<131, 127, 255, 255, 255, 255, 255, 255, 255, 255>>, <<136, 255, 0, 0, 0, 1, 0, 0, 0, 0, 1, 2, 3, 4, 7>> }
+\* whatever follows such a header, the frame cannot be completed by any input a test can hold
+HugeLemma == \A w \in HugeWires : Decode(w).r \in {"ReadError", "EitherError"}
+ASSUME HugeLemma
+
 \* (an operator with parameters on purpose: TLC evaluates parameterless constant definitions at start-up in every
 \*  configuration, also in those that never use them)
 WiresOf(SF, BF) == UNION { Prefixes(Encode(f) \o <<129>>) \cup Prefixes(NonMin16(f)) \cup Prefixes(NonMin64(f)) : f \in SF }
@@ -55,6 +68,22 @@ AbsInit == /\ fr \in AbsFrames(GenLens \cup {2147483647})
            /\ wire = <<>> /\ sent = 0 /\ eof = FALSE /\ cons = 0 /\ phase = "abs" /\ res = "lemma"
 AbsLemma == HeaderRoundTrip(fr) /\ EncAlgo(fr) = Header(fr)
 Seed(f) == (f.len * 31 + f.op * 7 + f.fin + f.mask * 3 + f.rsv[1] + f.rsv[2] * 2 + f.rsv[3] * 4 + f.key[2]) % 65537
+\* payloads of several MiB and lengths around the 4 KiB block size (lessons L2): decoded by the harness under
+\* readers that return 1, 3, 7, 4093, 4096, 4099 ... bytes per read
+BigLens == {4095, 4096, 4097, 3145729, 4194307, 5242881}
+BigFrames == { [fin |-> 1, rsv |-> <<0, 0, 0>>, op |-> 2, mask |-> mk[1], key |-> mk[2], len |-> n, payload |-> <<>>] :
+               mk \in { <<0, <<0, 0, 0, 0>> >>, <<1, <<165, 90, 60, 195>> >>, <<1, <<1, 2, 3, 4>> >> }, n \in BigLens }
+BigInit == /\ fr \in BigFrames
+           /\ wire = <<>> /\ sent = 0 /\ eof = FALSE /\ cons = 0 /\ phase = "big" /\ res = "lemma"
+GenBig == phase = "big" =>
+  /\ AbsLemma
+  /\ PrintT(ToJson([k |-> "bigframe", fin |-> fr.fin, rsv |-> fr.rsv, op |-> fr.op, mask |-> fr.mask, key |-> fr.key,
+                    len |-> fr.len, seed |-> Seed(fr), hdr |-> Header(fr)]))
+HugeInit == /\ wire \in HugeHeaders /\ fr = NoFrame
+            /\ sent = 0 /\ eof = FALSE /\ cons = 0 /\ phase = "huge" /\ res = "lemma"
+GenHuge == phase = "huge" =>
+  /\ \A t \in HugeTails : Decode(wire \o t).r = "ReadError"
+  /\ PrintT(ToJson([k |-> "huge", h |-> wire, exp |-> Decode(wire).r]))
 GenFrame == (phase = "abs" /\ fr.len < 2147483647) =>
   PrintT(ToJson([k |-> "frame", fin |-> fr.fin, rsv |-> fr.rsv, op |-> fr.op, mask |-> fr.mask, key |-> fr.key,
                  len |-> fr.len, seed |-> Seed(fr), hdr |-> Header(fr)]))
@@ -81,6 +110,6 @@ WireInit == /\ wire \in WiresOf(SmallFrames, BoundaryFrames) /\ fr = NoFrame
             /\ sent = 0 /\ eof = FALSE /\ cons = 0 /\ phase = "wire" /\ res = "lemma"
 GenWire == phase = "wire" => PrintT(ToJson([k |-> "wire", w |-> wire, exp |-> Decode(wire)]))
 
-GenAllInit == AbsInit \/ HdrInit \/ XorInit \/ WireInit
-GenAllInv == GenFrame /\ GenHdr /\ GenXor /\ GenWire /\ (phase = "abs" => AbsLemma) /\ HdrLemma
+GenAllInit == AbsInit \/ HdrInit \/ XorInit \/ WireInit \/ BigInit \/ HugeInit
+GenAllInv == GenFrame /\ GenHdr /\ GenXor /\ GenWire /\ GenBig /\ GenHuge /\ (phase = "abs" => AbsLemma) /\ HdrLemma
 =============================================================================
